@@ -1,12 +1,16 @@
 """Regenerates lean/CppUModel/Gen/PluginConstants.lean (MAX_SET, the sentinel's name) from
 include/CppUTest/TestPlugin.h / src/CppUTest/TestPlugin.cpp and checks that the small functions the C17
-model was written from still have the shape that was modelled."""
+model was written from still have the shape that was modelled.  (CppUTestStore, SetPointerPlugin::postTestAction and
+constructor, UT_PTR_SET and the two chain walks are no longer shape-checked here: translate/extract_plugincode.py
+translates them from the clang AST.)"""
 import os, re
 from .common import *
 
 HDR = "include/CppUTest/TestPlugin.h"
 SRC = "src/CppUTest/TestPlugin.cpp"
 REG = "src/CppUTest/TestRegistry.cpp"
+CLI = "src/CppUTest/CommandLineTestRunner.cpp"
+CLIH = "include/CppUTest/CommandLineTestRunner.h"
 
 
 def norm(s):
@@ -14,19 +18,6 @@ def norm(s):
 
 
 SHAPES = [
-    (SRC, r"void\s+CppUTestStore\s*\(\s*void\s*\*\*\s*function\s*\)\s*\{",
-     'if(pointerTableIndex>=SetPointerPlugin::MAX_SET){FAIL("Maximumnumberoffunctionpointersinstalled!");}'
-     "setlist[pointerTableIndex].orig_value=*function;setlist[pointerTableIndex].orig=function;pointerTableIndex++;",
-     "CppUTestStore"),
-    (SRC, r"void\s+SetPointerPlugin::postTestAction\s*\([^)]*\)\s*\{",
-     "for(inti=pointerTableIndex-1;i>=0;i--)*((void**)setlist[i].orig)=setlist[i].orig_value;pointerTableIndex=0;",
-     "SetPointerPlugin::postTestAction"),
-    (SRC, r"void\s+TestPlugin::runAllPreTestAction\s*\([^)]*\)\s*\{",
-     "if(enabled_)preTestAction(test,result);next_->runAllPreTestAction(test,result);",
-     "TestPlugin::runAllPreTestAction"),
-    (SRC, r"void\s+TestPlugin::runAllPostTestAction\s*\([^)]*\)\s*\{",
-     "next_->runAllPostTestAction(test,result);if(enabled_)postTestAction(test,result);",
-     "TestPlugin::runAllPostTestAction"),
     (SRC, r"TestPlugin\s*\*\s*TestPlugin::removePluginByName\s*\([^)]*\)\s*\{",
      "TestPlugin*removed=NULLPTR;if(next_&&next_->getName()==name){removed=next_;next_=next_->next_;}"
      "elseif(next_)removed=next_->removePluginByName(name);returnremoved;",
@@ -52,6 +43,11 @@ SHAPES = [
      "if(firstPlugin_->removePluginByName(name)==firstPlugin_)firstPlugin_=firstPlugin_->getNext();"
      "if(firstPlugin_->getName()==name)firstPlugin_=firstPlugin_->getNext();firstPlugin_->removePluginByName(name);",
      "TestRegistry::removePluginByName"),
+    (CLI, r"int\s+CommandLineTestRunner::runAllTestsMain\s*\(\s*\)\s*\{",
+     "inttestResult=1;SetPointerPluginpPlugin(DEF_PLUGIN_SET_POINTER);registry_->installPlugin(&pPlugin);"
+     "if(parseArguments(registry_->getFirstPlugin()))testResult=runAllTests();"
+     "registry_->removePluginByName(DEF_PLUGIN_SET_POINTER);returntestResult;",
+     "CommandLineTestRunner::runAllTestsMain (constructs, installs and removes by name its own SetPointerPlugin)"),
 ]
 
 
@@ -68,23 +64,19 @@ def extract():
     if not m:
         raise TranslateError("SetPointerPlugin::MAX_SET not found")
     max_set = int(m.group(1))
-    src = cache[SRC]
-    if not re.search(r"static\s+cpputest_pair\s+setlist\s*\[\s*SetPointerPlugin::MAX_SET\s*\]\s*;", src):
-        raise TranslateError("setlist is no longer an array of SetPointerPlugin::MAX_SET entries")
-    m = re.search(r"#define\s+UT_PTR_SET\(a,\s*b\)(.*?)while\s*\(0\)", read(HDR), re.S)
-    if not m or norm(m.group(1).replace("\\", "")) != "do{CppUTestStore((void**)&(a));(a)=b;}":
-        raise TranslateError("UT_PTR_SET is no longer `CppUTestStore(&a); a = b`")
     m = re.search(r"TestPlugin::TestPlugin\s*\(\s*TestPlugin\s*\*\s*next\s*\)\s*:\s*next_\(next\)\s*,\s*name_\(\"([^\"]*)\"\)", read(SRC))
     if not m:
         raise TranslateError("name of the sentinel plugin not found")
     null_name = m.group(1)
-    m = re.search(r"SetPointerPlugin::SetPointerPlugin\s*\([^)]*\)\s*:\s*TestPlugin\(name\)\s*\{\s*pointerTableIndex\s*=\s*0\s*;\s*\}", src)
+    m = re.search(r"#define\s+DEF_PLUGIN_SET_POINTER\s+\"([^\"]*)\"", read(CLIH))
     if not m:
-        raise TranslateError("SetPointerPlugin constructor no longer resets pointerTableIndex to 0")
+        raise TranslateError("DEF_PLUGIN_SET_POINTER not found")
+    cli_name = m.group(1)
     text = HEADER % ("translate/extract_plugins.py", HDR)
     text += "namespace Gen.Plugins\n"
     text += "def maxSet : Nat := %d\n" % max_set
     text += "def nullName : String := \"%s\"\n" % null_name
+    text += "def cliSetPointerName : String := \"%s\"\n" % cli_name
     text += "end Gen.Plugins\n"
     return text
 
